@@ -114,12 +114,18 @@ pub enum Binding {
     Default,
     /// box hash (builder.prefer_box_hash) for formats that support it
     Box,
+    /// BMFF hash with Merkle leaves of 1 KiB over the mdat payload; the model asset's mdat is
+    /// sized so that the leaf-covered part is a whole number of leaves
+    MerkleAligned,
+    /// the same with a last leaf of 1..1023 bytes
+    Merkle,
 }
 
 pub fn binding_overlay(b: Binding) -> Value {
     match b {
         Binding::Default => json!({}),
         Binding::Box => json!({ "core": { "prefer_compress_manifests": true } }),
+        Binding::Merkle | Binding::MerkleAligned => json!({ "core": { "merkle_tree_chunk_size_in_kb": 1 } }),
     }
 }
 
